@@ -324,7 +324,7 @@ func algebraOn(hs *harvest, res *algResult) {
 func harvests(t *testing.T, r *vk.Run, scs []*scen) []*harvest {
 	var list []*scen
 	for _, sc := range scs {
-		if sc.split && !sc.xview && !sc.catchup {
+		if sc.split && !sc.xview && !sc.catchup && !sc.reqtx {
 			list = append(list, sc)
 		}
 	}
